@@ -11,7 +11,9 @@ Two detectors
   oracle (independent of the Lean model): the ambient-poisoning differential.  Run A and run B use the same seed,
     algorithm, configuration and environment constructor but start from different ambient generator states; every
     tensor of the parameters / optimizers, every array of the buffer, VecNormalize statistics and the per-env action
-    sequences must be bit-identical.  Run C (seed+1, ambient of A) must differ in parameters, buffer and actions.
+    sequences must be bit-identical.  Ambient state includes the state INSIDE the objects of the configuration: before
+    each run a poisoning run (other seed, other length) uses the very same action-noise object (OU / Normal /
+    pre-vectorised), policy_kwargs and replay_buffer_kwargs dicts and stops mid-episode.  Run C (seed+1, ambient of A) must differ in parameters, buffer and actions.
   correspondence: the generators are observed at every boundary of the real run (seeding calls, end of __init__,
     learn's reset, rollout start, every step, rollout end, train begin/end, training end) and give
       sites     which generators advanced in a segment    vs  the model's draw sites for that segment (must/may)
@@ -41,7 +43,8 @@ RULE = (
     "gradient_steps, second learn() call with and without reset_num_timesteps} x seed (0 with weight, small, 31-bit) x "
     "stochastic env drawing from its own np_random (always) and optionally from python `random` / global numpy. "
     "Each case = three real training runs (A, B: same seed, different ambient generator state, allocations and "
-    "pending env seeds; C: seed+1), <= 60 env steps, net_arch=[4]. non-trivial = a case whose run draws from at least "
+    "pending env seeds and — always when there is an action-noise object, else 25% — different leftovers inside the shared "
+    "configuration objects from an earlier poisoning run with the same kwargs; C: seed+1), <= 60 env steps, net_arch=[4]. non-trivial = a case whose run draws from at least "
     "three distinct seeded generator families after construction and performs at least one gradient update; "
     "distinct = distinct canonical configuration (without the ambient values)"
 )
@@ -54,7 +57,7 @@ STREAMS = {
 
 ALGOS = ["PPO", "A2C", "DQN", "SAC", "TD3", "DDPG"]
 ON_POLICY = ("PPO", "A2C")
-GLOBAL_GENS = ["py", "np", "torch", "actSpace", "obsSpace", "os"]
+GLOBAL_GENS = ["py", "np", "torch", "actSpace", "obsSpace", "os", "noise"]
 
 
 # =================================================================================================
@@ -195,6 +198,20 @@ def space_token(sp):
     return gen_token(sp._np_random)
 
 
+def noise_token(nz):
+    """state inside an action-noise object of the configuration"""
+    from stable_baselines3.common.noise import OrnsteinUhlenbeckActionNoise, VectorizedActionNoise
+
+    if nz is None:
+        return "none"
+    if isinstance(nz, VectorizedActionNoise):
+        toks = [noise_token(x) for x in nz.noises]
+        return "stateless" if all(t == "stateless" for t in toks) else "|".join(toks)
+    if isinstance(nz, OrnsteinUhlenbeckActionNoise):
+        return _h(np.asarray(nz.noise_prev, dtype=np.float64).tobytes())
+    return "stateless"
+
+
 class Recorder:
     """snapshots of all generators at the boundaries of one real run + the seeding calls in their real order"""
 
@@ -205,6 +222,8 @@ class Recorder:
         self.act_space = venv_base.action_space
         self.obs_space = venv_base.observation_space
         self.os_events = 0
+        self.noise_get = lambda: None   # the action-noise object the library currently uses
+        self._noise_depth = 0
         self.marks = []      # [label, info, snapshot]
         self._undo = []
 
@@ -219,6 +238,7 @@ class Recorder:
             "actSpace": space_token(self.act_space),
             "obsSpace": space_token(self.obs_space),
             "os": str(self.os_events),
+            "noise": noise_token(self.noise_get()),
             "pending": list(self.venv_base._seeds),
         }
         if self.subproc:
@@ -300,6 +320,31 @@ class Recorder:
 
         wrap_reset(DummyVecEnv)
         wrap_reset(SubprocVecEnv)
+
+        from stable_baselines3.common.noise import ActionNoise, OrnsteinUhlenbeckActionNoise, VectorizedActionNoise
+
+        def wrap_noise_reset(cls):
+            old = vars(cls)["reset"]
+
+            def nreset(self_, *a, **k):
+                # only resets of the object the library currently uses count (VectorizedActionNoise.__init__ also
+                # resets the deep copies it has just made, before the library installs the wrapper)
+                outer = rec._noise_depth == 0 and self_ is rec.noise_get()
+                rec._noise_depth += 1
+                try:
+                    if outer:
+                        rec.mark("before:noisereset")
+                    r = old(self_, *a, **k)
+                    if outer:
+                        rec.mark("noisereset")
+                    return r
+                finally:
+                    rec._noise_depth -= 1
+
+            rec._patch(cls, "reset", nreset)
+
+        for cls in (ActionNoise, OrnsteinUhlenbeckActionNoise, VectorizedActionNoise):
+            wrap_noise_reset(cls)
 
         old_default_rng = np.random.default_rng
 
@@ -449,16 +494,47 @@ def build_env(case, amb):
     return base, venv
 
 
-def build_model(case, seed, venv, base):
+def make_shared(case):
+    """objects of the CONFIGURATION that are handed, as they are, to every model built from it"""
+    pk = dict(net_arch=[4])
+    if case["obs"] == "image":
+        pk["features_extractor_kwargs"] = dict(features_dim=8)
+    sh = {"policy_kwargs": pk, "noise": make_noise(case) if case["algo"] not in ON_POLICY + ("DQN",) else None,
+          "rb_kwargs": None}
+    if case.get("her"):
+        sh["rb_kwargs"] = dict(n_sampled_goal=case["n_sampled_goal"], goal_selection_strategy=case["her"])
+    elif case.get("opt_mem"):
+        sh["rb_kwargs"] = dict(handle_timeout_termination=False)
+    return sh
+
+
+def poison_config(case, shared, amb):
+    """an earlier run with the very same configuration objects (other seed, other length, stops mid-episode);
+    whatever state it leaves inside them is ambient for the run under test"""
+    base, venv = build_env(case, amb)
+    try:
+        model = build_model(case, 4242 + amb, venv, base, shared)
+        model.learn(((amb % 4) + 2) * case["n_envs"])
+    finally:
+        try:
+            base.close()
+        except Exception:
+            pass
+    if shared["noise"] is not None:
+        for _ in range(amb % 3 + 1):   # the earlier run stopped in the middle of an episode
+            shared["noise"]()
+
+
+def build_model(case, seed, venv, base, shared=None):
     import stable_baselines3 as sb3
     from stable_baselines3.common.logger import Logger
 
     algo = case["algo"]
     cls = getattr(sb3, algo)
-    pk = dict(net_arch=[4])
+    shared = shared or make_shared(case)
+    pk = shared["policy_kwargs"]
     if case["obs"] == "image":
         policy = "CnnPolicy"
-        pk["features_extractor_kwargs"] = dict(features_dim=8)
     elif case["obs"] in ("dict", "goal"):
         policy = "MultiInputPolicy"
     else:
@@ -475,7 +551,7 @@ def build_model(case, seed, venv, base):
             kw.update(exploration_fraction=case["eps_fraction"], exploration_initial_eps=case["eps_initial"],
                       exploration_final_eps=case["eps_final"], target_update_interval=case["target_update_interval"])
         else:
-            kw["action_noise"] = make_noise(case)
+            kw["action_noise"] = shared["noise"]
         if algo == "SAC":
             kw.update(use_sde=case["use_sde"], sde_sample_freq=case["sde_freq"], use_sde_at_warmup=case["sde_at_warmup"],
                       ent_coef="auto" if case["ent_auto"] else 0.1)
@@ -484,10 +560,9 @@ def build_model(case, seed, venv, base):
         if case.get("her"):
             from stable_baselines3.her.her_replay_buffer import HerReplayBuffer
 
-            kw.update(replay_buffer_class=HerReplayBuffer,
-                      replay_buffer_kwargs=dict(n_sampled_goal=case["n_sampled_goal"], goal_selection_strategy=case["her"]))
+            kw.update(replay_buffer_class=HerReplayBuffer, replay_buffer_kwargs=shared["rb_kwargs"])
         elif case.get("opt_mem"):
-            kw.update(optimize_memory_usage=True, replay_buffer_kwargs=dict(handle_timeout_termination=False))
+            kw.update(optimize_memory_usage=True, replay_buffer_kwargs=shared["rb_kwargs"])
     env_arg = venv
     if case["wrap"] == "raw":
         env_arg = base.envs[0]
@@ -503,6 +578,9 @@ def run_once(case, seed, amb):
     from stable_baselines3.common.callbacks import BaseCallback
 
     warnings.filterwarnings("ignore", category=UserWarning)
+    shared = make_shared(case)
+    if case.get("cfg_poison"):
+        poison_config(case, shared, amb)
     junk = poison_globals(amb, case["amb_mode"])
     base, venv = build_env(case, amb)
     n = case["n_envs"]
@@ -510,8 +588,9 @@ def run_once(case, seed, amb):
     model = None
     try:
         rec.install()
+        rec.noise_get = lambda: (model.action_noise if model is not None else shared["noise"])
         rec.mark("start")
-        model = build_model(case, seed, venv, base)
+        model = build_model(case, seed, venv, base, shared)
         rec.mark("constructed")
         vb = model.env
         while hasattr(vb, "venv"):
@@ -558,6 +637,7 @@ def run_once(case, seed, amb):
 
         model.train = train
         for li in range(case["learn_calls"]):
+            rec.mark("learn_begin")
             model.learn(case["steps"], callback=Obs(), reset_num_timesteps=(True if li == 0 else case["reset_ts"]))
         if case["wrap"] == "subproc":
             recs = base.env_method("get_record")
@@ -616,6 +696,7 @@ def gen_case(rng, thorough, widen):
     c.update(env_py=(not sub) and rng.chance(0.25), env_npg=(not sub) and rng.chance(0.25),
              max_len=rng.randint(3, 8), p_term=rng.choice([0.0, 0.1, 0.3]))
     # run length -----------------------------------------------------------------------------------
+    c["cfg_poison"] = rng.chance(0.25)   # forced to True below when there is an action-noise object
     c["learn_calls"] = 2 if rng.chance(0.2) else 1
     c["reset_ts"] = rng.chance(0.5)
     # algorithm options ----------------------------------------------------------------------------
@@ -631,7 +712,9 @@ def gen_case(rng, thorough, widen):
         c["steps"] = rng.randint(N, max(N, 44 // c["learn_calls"]))
     else:
         if algo != "DQN":
-            c["noise"] = rng.weighted([(None, 3), ("normal", 2), ("ou", 2), ("vec_normal", 1), ("vec_ou", 1)])
+            c["noise"] = rng.weighted([(None, 3), ("normal", 2), ("ou", 3), ("vec_normal", 1), ("vec_ou", 2)])
+            if c["noise"]:
+                c["cfg_poison"] = True
         c["steps"] = rng.randint(16, 56) // c["learn_calls"]
         if her:
             ls = c["max_len"] * n_envs + rng.randint(0, 4)
@@ -676,8 +759,12 @@ def shrink_candidates(case):
     for k in ("env_py", "env_npg", "pre_env_seed", "pre_reset", "use_sde", "opt_mem"):
         if case.get(k):
             yield alt(**{k: False})
+    if case.get("cfg_poison") and not case.get("noise"):
+        yield alt(cfg_poison=False)
     if case.get("noise"):
-        yield alt(noise=None)
+        yield alt(noise=None, cfg_poison=False)
+        if case["noise"] not in ("ou", "normal"):
+            yield alt(noise=case["noise"].replace("vec_", ""))
     if case.get("her"):
         yield alt(her=None, obs="box")
     if case["obs"] in ("dict", "image"):
@@ -695,6 +782,20 @@ def shrink_candidates(case):
 # =================================================================================================
 # correspondence: marks -> model operations
 # =================================================================================================
+def setup_marks(marks):
+    """indices of the marks taken inside `_setup_learn` (learn_begin … training_start): there a change of the noise
+    token is the reset / the vectorisation (deep copies), never a draw"""
+    out, inside = set(), False
+    for i, m in enumerate(marks):
+        if m[0] == "learn_begin":
+            inside = True
+        if inside:
+            out.add(i)
+        if m[0] == "training_start":
+            inside = False
+    return out
+
+
 def universe(n):
     return GLOBAL_GENS + [f"env{i}" for i in range(n)]
 
@@ -723,10 +824,14 @@ def build_ops(case, seed, run):
     reset_draws = [0] * n
     first_reset_done = False
     cur_group = None
+    in_setup = False
+    setup = setup_marks(marks)
     for i in range(1, len(marks)):
         lab, info, snap = marks[i]
         prev = marks[i - 1][2]
         adv = advanced(prev, snap, n)
+        if i in setup:
+            adv = [x for x in adv if x != "noise"]
         ddraws = [snap["draws"][e] - prev["draws"][e] for e in range(n)]
         ops = []
         if lab.startswith("seed:"):
@@ -739,6 +844,9 @@ def build_ops(case, seed, run):
         elif lab == "vreset":
             ops.append({"o": "envReset", "n": n})
             ops += [{"o": "draw", "g": x, "k": 1} for x in adv]
+        elif lab == "noisereset":
+            ops += [{"o": "draw", "g": x, "k": 1} for x in adv if x != "noise"]
+            ops.append({"o": "reset", "g": "noise"})
         else:
             for x in adv:
                 if x == "os" and cnn and phase == "construct":
@@ -767,7 +875,13 @@ def build_ops(case, seed, run):
                 first_reset_done = True
                 cur_group = None
             continue
-        if lab == "rollout_start":
+        if lab == "learn_begin":
+            in_setup = True
+        elif lab == "training_start":
+            in_setup = False
+        if lab == "noisereset" and in_setup:
+            ev = {"e": "learnStart"}
+        elif lab == "rollout_start":
             ev = {"e": "rolloutStart"}
         elif lab == "step":
             ev = {"e": "step", "t": info["t"], "k": info["k"], "draws": ddraws}
@@ -849,12 +963,19 @@ def correspondence(ctx, case, A, B, predict_out, meas_out, groups):
                      note="runs A and B pass different boundaries")
         return
 
+    first_learn = next((i for i, m in enumerate(marksA) if m[0] == "learn_begin"), len(marksA))
+
     def check_low(i, low, pend, where):
         sa, sb = marksA[i][2], marksB[i][2]
         for g in uni:
             if g == "os":
                 continue
             eq = sa[g] == sb[g]
+            if g == "noise" and not (g in low and not eq):
+                # stateless / absent noise has no state to compare; a stateful one must differ while ambient
+                if not (g not in low and eq and case.get("cfg_poison") and "ou" in (case.get("noise") or "")
+                        and i <= first_learn):
+                    continue
             if g in low and not eq:
                 rep.disagree("lowness", case, {"mark": i, "label": marksA[i][0], "gen": g, "equal": False},
                              {"low": True, "from": where},
@@ -892,6 +1013,7 @@ def correspondence(ctx, case, A, B, predict_out, meas_out, groups):
         rep.agree()
     # ---- sites: generators that advanced in each model segment ---------------------------------------
     ok = True
+    setup = setup_marks(marksA)
     for gi, (kind, idxs) in enumerate(groups):
         seg = predict_out["segments"][gi]
         adv = set()
@@ -900,6 +1022,8 @@ def correspondence(ctx, case, A, B, predict_out, meas_out, groups):
             a = advanced(marksA[i - 1][2], marksA[i][2], n)
             if lab.startswith("seed:"):
                 a = [x for x in a if x != lab[5:]]
+            if lab == "noisereset" or i in setup:
+                a = [x for x in a if x != "noise"]
             adv.update(a)
         must, may = set(seg["must"]), set(seg["may"])
         if not (must <= adv <= may):
@@ -947,7 +1071,7 @@ def check_cases(ctx, cases):
         rep.count(f"obs:{case['obs']}")
         rep.count(f"act:{case['act']}")
         rep.count("seed:" + ("0" if case["seed"] == 0 else "small" if case["seed"] < 10 else "large"))
-        for k in ("use_sde", "her", "noise", "env_py", "env_npg", "pre_env_seed", "pre_reset", "opt_mem"):
+        for k in ("use_sde", "her", "noise", "env_py", "env_npg", "pre_env_seed", "pre_reset", "opt_mem", "cfg_poison"):
             if case.get(k):
                 rep.count(f"opt:{k}" + (f"={case[k]}" if isinstance(case[k], str) else ""))
         if case["learn_calls"] > 1:
